@@ -19,6 +19,31 @@ BUILT = {
    'TLC explores every interleaving (exhaustive to the stated length) of MergeDocument / Documents / OutputDocuments / Output calls over documents using $merge, $replace, $repeat, interpolation and $output, checks the action property ObservationIsPure, and prints each history with the expected state and outputs after every call; the harness drives one live Parser per history and compares Documents(), the outputs and the output bytes of repeated calls. Random histories (up to 8 calls, generated directive-laden documents, three output formats) recorded from the real library are validated by TLC: outputs must equal the evaluation of the merged state, Documents() must equal the merged state, and repeated output calls on one state must have equal digests.',
    'Trusts TLC and the tv projection; $encode/$decode documents are exercised by C14, OutputToWriter/OutputToFile by C05 (they wrap Output).',
    'TLA+ Parser+evaluator machine + TLC bounded history model (MC_Parser, family C19) replayed on live Parsers + TLC trace validation with digest history', '6 C19'),
+
+ 'C06': ('model_checking',
+   'TLC enumerates every string of length <= Bound over {$ a { } : . "} plus 31 directive tokens at 11 positions (value and key, nested, in lists) and asserts the identity law for plain strings, the escape law Eval(Escape(d)) = d for all of them, and the layered escape law; every case is replayed on the real library. Random trees over a $-rich alphabet (unicode lower-case letters included) are evaluated by the real library, and TLC checks that specification, code and the independently computed expectation (nulls dropped / original / overlay) coincide.',
+   'Trusts TLC and the tv projection; keys that collide after un-escaping are outside the domain (the driver escapes injectively).',
+   'TLA+ evaluator spec + TLC bounded universe (MC_Eval C06) with per-case replay + TLC trace validation with law expectations', '6 C06'),
+ 'C07': ('model_checking',
+   'TLC enumerates 15 tokens ($required, known / unknown / misplaced directives) at 12 lower-layer positions x 14 upper layers, asserts NoMarker on every successful evaluation of the specification, and every chain is replayed on the real library. Random 2-3 layer chains with markers injected are recorded from the library and validated; TLC additionally evaluates NoMarker on the OBSERVED outputs.',
+   'Trusts TLC and the tv projection. YAML anchors duplicating a marker are covered by the format checks (C04).',
+   'TLA+ spec + TLC bounded universe (MC_Eval C07) with replay + trace validation with the NoMarker law on observed outputs', '6 C07'),
+ 'C10': ('model_checking',
+   'TLC asserts the inline law on 22 reference forms (map / list / string, dotted and list paths, keys with dots, chains, hidden templates, cross-document long and short forms), target-unchanged, and errors for 14 dangling / ambiguous forms; all cases replayed on the library. The driver picks random targets and non-overlapping hosts in random documents and evaluates the reference form; the expectation is the real evaluation of the same document with the value written inline, and TLC checks specification = code = expectation.',
+   'Trusts TLC and tv. Reference paths are identifier-like (the YAML parse of the path string is the identity). One shape is a listed known finding (c10-host-nonmap).',
+   'TLA+ spec + TLC bounded universe (MC_Eval C10) with replay + metamorphic trace validation (reference vs inline)', '6 C10'),
+ 'C11': ('model_checking',
+   'TLC asserts the output law (outputs = bag of marked subtrees, stripped and hidden; no $output key survives; marker entries with extra keys are errors) on all 3^4 marker placements over a 4-container shape, 2-document streams and nested list markers, each replayed on the library. Random marked trees are evaluated by the library and TLC evaluates the declarative Expected11 on the observed outputs.',
+   'Trusts TLC and tv. The order of outputs is compared with the specification (which follows the code) and as a bag with the declarative law. A marked map that is a direct list entry is a listed known finding (c11-map-in-list).',
+   'TLA+ spec + declarative output law (BklProps Expected11) + TLC bounded universe with replay + trace validation', '6 C11'),
+ 'C12': ('model_checking',
+   'TLC asserts the repeat law against hand-substituted copies for counts 0..Bound at document level, named pairs (lexicographic product), list- and map-nested forms, nested repeats inside repeats, root lists, counts overridden by an upper layer and 8 non-integer counts; each case replayed. The driver generates random bodies with an independent hand substitution as expectation; TLC checks specification = code = expectation.',
+   'Trusts TLC and tv; counts above 100 are outside the modelled domain.',
+   'TLA+ spec + TLC bounded universe (MC_Eval C12) with replay + trace validation with hand-substituted expectations', '6 C12'),
+ 'C13': ('model_checking',
+   'TLC asserts the interpolation law (literal segments interleaved with formatted values; missing reference or unset variable is an error; $env always a string, also in keys; nested templates) on 653 template cases, each replayed on the library with a controlled environment. The driver builds templates of 0-4 literal segments and 0-4 references with look-alike environment values; the expected string is assembled independently and TLC checks specification = code = expectation.',
+   'Trusts TLC and tv. Environment values containing $ forms are a listed known finding (c13-env-dollar).',
+   'TLA+ spec + TLC bounded universe (MC_Eval C13) with replay + trace validation with hand-assembled expectations', '6 C13'),
 }
 PENDING = 'check not built yet (work in progress; DESIGN.md section 6 describes the planned decision procedure)'
 
